@@ -169,9 +169,23 @@ class Harness:
             raise Violation(sig, recipe, detail)
         size = len(jdump(recipe))
         old = self.violations.get(k)
+        if old is None:
+            self._progress(sig, recipe, detail)
         if old is None or size < old["size"]:
             self.violations[k] = {"signature": sig, "recipe": recipe, "detail": detail[:4000],
                                   "size": size}
+
+    def _progress(self, sig: dict, recipe: Any, detail: str) -> None:
+        """Append a newly seen violation to out/progress-<ID>.jsonl so that long runs that are cut
+        short (time limits) still leave their findings behind. Best effort, never fails the run."""
+        try:
+            d = os.environ.get("VT_OUT_DIR") or os.path.join(ROOT, "out")
+            os.makedirs(d, exist_ok=True)
+            with open(os.path.join(d, f"progress-{self.pid}.jsonl"), "a") as f:
+                f.write(jdump({"shard": self.shard, "signature": sig, "recipe": recipe,
+                               "detail": detail[:1500]}) + "\n")
+        except OSError:
+            pass
 
     # ---- Hypothesis driver --------------------------------------------------------------
     def hyp(self, name: str, strategy: Any, body: Callable[[Any], None], max_examples: int,
@@ -217,6 +231,7 @@ class Harness:
             except Violation as v:
                 k = sigkey(v.sig)
                 self.run_excluded.add(k)
+                self._progress(v.sig, v.recipe, v.detail)
                 best, bv = v.recipe, v
                 if len(self.violations) < 40:
                     try:
